@@ -110,6 +110,20 @@ theorem C18_no_number_from_zero_division (normalized : Bool) (d up lo base : Rat
   · simp only [coef, quot]
     split <;> simp
 
+/-- … and EXACTLY then: an entry has no finite value iff the displacement times the scanned value is 0, or the
+    coefficient is scaled and the unperturbed flux is 0 (what pandas reports there is `inf` / `nan`, never an exception) -/
+theorem C18_entry_undefined_iff (normalized : Bool) (d old up lo base : Rat) :
+    coef normalized d old up lo base = none ↔ (2 * d * old = 0 ∨ (normalized = true ∧ base = 0)) := by
+  simp only [coef, quot]
+  by_cases h1 : 2 * d * old = 0
+  · simp [h1]
+  · cases normalized with
+    | false => simp [h1]
+    | true =>
+      by_cases h2 : base = 0
+      · simp [h1, h2]
+      · simp [h1, h2]
+
 /-! ### response coefficients are the same quotient -/
 
 /-- every entry of a response-coefficient column is the SAME quotient `coef` the elasticities use: of the last rows of
